@@ -2775,6 +2775,19 @@ func (a *Agent) handlePeerDisconnect(conn *peer.Connection, err error) {
 	// Clean up relay streams involving this peer
 	a.cleanupRelaysForPeer(peerID)
 
+	// Close exit and port-forward connections opened on behalf of this peer:
+	// nobody is left to use or close them, and they count against the limits.
+	// (Not when another connection to the same peer is registered: that is a
+	// stale teardown and the tunnels belong to the live connection.)
+	if a.peerMgr.GetPeer(peerID) == nil {
+		if a.exitHandler != nil {
+			a.exitHandler.CloseConnectionsForPeer(peerID)
+		}
+		if a.forwardHandler != nil {
+			a.forwardHandler.CloseConnectionsForPeer(peerID)
+		}
+	}
+
 	// Clean up routes learned from this peer
 	a.routeMgr.HandlePeerDisconnect(peerID)
 	a.routeMgr.HandlePeerDisconnectDomain(peerID)
